@@ -26,4 +26,10 @@ CausalIsLeftPadded ==
     LET gc == [g EXCEPT !.pad = "causal", !.sh = 1]   gv == [g EXCEPT !.pad = "valid", !.sh = 1]
         xp == <<[j \in 1..(g.dw + Len(x[1])) |-> IF j <= g.dw THEN <<0>> ELSE x[1][j - g.dw]]>>
     IN Conv2D(x, k, gc) = Conv2D(xp, k, gv)
+\* a grouped convolution (2 input channels, 2 groups, 2 filters) is the ordinary one with the block-diagonal kernel
+GroupedIsBlockDiagonal ==
+  LET x2 == [i \in 1..Len(x) |-> [j \in 1..Len(x[1]) |-> <<x[i][j][1], k[1][1][1][1] + x[i][j][1]>>]]
+      kg == [a \in 1..1 |-> [b \in 1..2 |-> <<<<k[1][b][1][1], k[1][3 - b][1][1] + 1>>>>]]          \* [1][2][1][2]
+      kf == [a \in 1..1 |-> [b \in 1..2 |-> <<<<kg[a][b][1][1], 0>>, <<0, kg[a][b][1][2]>>>>]]      \* [1][2][2][2]
+  IN Conv2D(x2, kg, g) = Conv2D(x2, kf, g)
 =============================================================================
